@@ -101,6 +101,40 @@ Example C01_quo_example_run :
   = Some (mkDec Finite false (-7) 2).
 Proof. vm_compute. reflexivity. Qed.
 
+(* ---------- Precision 0 (rounding disabled, as in BaseContext) ----------
+   Round, Abs, Neg, Add, Sub and Mul return the exact result itself - any number of digits, no condition -
+   whenever its adjusted exponent lies inside the context's exponent range (exact_in_range: "subject only
+   to the exponent limits").  Below MinExponent apd with Precision 0 rounds to an Etiny of MinExponent + 1;
+   the property does not say what that corner should be, and it is left to the correspondence check. *)
+From Apd Require Import Proofs.P0Proofs.
+
+Theorem C01_precision0_round est : est_in_range est -> forall c (x : dec), prec c = 0 -> finite_nn x -> exact_in_range c (exact_of_dec x) ->
+  exists d f, ctx_round_op est c x = Ok (finish c d f) /\ p0_post (exact_of_dec x) d f.
+Proof. exact (round_op_p0 est). Qed.
+Print Assumptions C01_precision0_round.
+
+Theorem C01_precision0_abs est : est_in_range est -> forall c (x : dec), prec c = 0 -> finite_nn x -> exact_in_range c (exact_abs x) ->
+  exists d f, ctx_abs est c x = Ok (finish c d f) /\ p0_post (exact_abs x) d f.
+Proof. exact (abs_p0 est). Qed.
+Print Assumptions C01_precision0_abs.
+
+Theorem C01_precision0_neg est : est_in_range est -> forall c (x : dec), prec c = 0 -> finite_nn x -> exact_in_range c (exact_neg x) ->
+  exists d f, ctx_neg est c x = Ok (finish c d f) /\ p0_post (exact_neg x) d f.
+Proof. exact (neg_p0 est). Qed.
+Print Assumptions C01_precision0_neg.
+
+Theorem C01_precision0_add_sub est : est_in_range est -> forall c (x y : dec) (sub : bool), prec c = 0 -> finite_nn x -> finite_nn y ->
+  Z.abs (exp x - exp y) <= MaxExponent -> exact_in_range c (exact_add x y sub (rounder_eqb (rounding c) RFloor)) ->
+  exists d f, ctx_add est c x y sub = Ok (finish c d f) /\ p0_post (exact_add x y sub (rounder_eqb (rounding c) RFloor)) d f.
+Proof. exact (add_p0 est). Qed.
+Print Assumptions C01_precision0_add_sub.
+
+Theorem C01_precision0_mul est : est_in_range est -> forall c (x y : dec), prec c = 0 -> finite_nn x -> finite_nn y ->
+  in_lim (exp x) -> in_lim (exp y) -> exact_in_range c (exact_mul x y) ->
+  exists d f, ctx_mul est c x y = Ok (finish c d f) /\ p0_post (exact_mul x y) d f.
+Proof. exact (mul_p0 est). Qed.
+Print Assumptions C01_precision0_mul.
+
 (* ---------- what the specification means, in the standard vocabulary of floating-point rounding ----------
    Spec-Z (rndZ, spec_round_nz: integers only, executable, the specification every theorem above is stated
    against) computes Flocq's roundings: the integer rounding of a signed real in each of the nine mode
